@@ -50,6 +50,14 @@ var filters = []string{"", "", "", `attributes:z OR attributes:x OR attributes.y
 
 func (g *Gen) pick(ss []string) string { return ss[g.R.Intn(len(ss))] }
 
+// viaHandler: one operation in three goes through the gRPC handler instead of the action
+func (g *Gen) viaHandler() string {
+	if g.R.Intn(3) == 0 {
+		return "handler"
+	}
+	return ""
+}
+
 func (g *Gen) randCfg(topic string, allowDL bool) SubCfg {
 	c := SubCfg{Topic: topic}
 	c.TTL = []int64{3600 * Sec, 24 * 3600 * Sec, 600 * Sec}[g.R.Intn(3)]
@@ -268,7 +276,7 @@ func (g *Gen) Next(now int64) Op {
 			if t < 0 {
 				t = 0
 			}
-			return Op{K: "seek_time", Sub: s.name, D: t}, true
+			return Op{Via: g.viaHandler(), K: "seek_time", Sub: s.name, D: t}, true
 		}},
 		{p.Snap, func() (Op, bool) {
 			s := g.liveSub()
@@ -276,7 +284,7 @@ func (g *Gen) Next(now int64) Op {
 				return Op{}, false
 			}
 			if len(g.Snaps) > 0 && g.R.Intn(2) == 0 {
-				return Op{K: "seek_snap", Sub: s.name, Snap: g.pick(g.Snaps)}, true
+				return Op{Via: g.viaHandler(), K: "seek_snap", Sub: s.name, Snap: g.pick(g.Snaps)}, true
 			}
 			name := fmt.Sprintf("n%d", len(g.Snaps))
 			if g.R.Intn(6) == 0 && len(g.Snaps) > 0 {
